@@ -46,3 +46,12 @@ def run(ctx):
     ctx.floor("J9", 2)
     J.j10_class_array_is_a_list(ctx)
     ctx.floor("J10", 2)
+    from ..engines import jsonpairs as JP
+    JP.j11_pack_builders_carry_everything(ctx)
+    ctx.floor("J11", 6)
+    G.g9_ungroup_only_when_grouping(ctx)
+    ctx.floor("G9", 1)
+    # the rules a specification is made of after expand_verified are copies of the originals, form and all
+    from ..engines import expandverified as XV
+    XV.x2_copy_before_share(ctx)
+    ctx.floor("X2", 3)
